@@ -553,7 +553,17 @@ def regenerate() -> dict:
     gen_dir = os.path.join(core.LEAN_DIR, "Aiortc", "Gen")
     res = {"changed": [], "errors": {}}
     files = {}
-    for unit, fn in UNITS.items():
+    units = dict(UNITS)
+    # plug-in units: harness/genunits/<name>.py exposing UNITS = {"UnitName": fn -> list[str]}
+    gu = os.path.join(core.VERIF, "harness", "genunits")
+    for f in sorted(os.listdir(gu)):
+        if f.endswith(".py") and not f.startswith("_"):
+            try:
+                m = importlib.import_module("harness.genunits." + f[:-3])
+                units.update(getattr(m, "UNITS", {}))
+            except Exception as exc:
+                res["errors"]["genunits." + f[:-3]] = f"{type(exc).__name__}: {exc}"
+    for unit, fn in units.items():
         try:
             files[unit + ".lean"] = "\n".join(HEADER + fn() + ["end Aiortc.Gen"]) + "\n"
         except CannotTranslate as exc:
